@@ -228,6 +228,56 @@ func TestC09(t *testing.T) {
 		r.Exhaustive("cells", !r.Replaying())
 	}
 
+	// reflexivity of lists that hold nil-like members (nil, nil pointer, empty IRI, the "-" IRI) next to real ones, alone and
+	// as the value of list-typed and item-typed properties
+	if r.WantLayer("nil-members", true) {
+		nils := []struct {
+			name string
+			mk   func() ap.Item
+		}{{"nil", func() ap.Item { return nil }}, {"nil-pointer", func() ap.Item { return (*ap.Object)(nil) }}, {"nil-actor-pointer", func() ap.Item { return (*ap.Actor)(nil) }},
+			{"empty-iri", func() ap.Item { return ap.IRI("") }}, {"dash-iri", func() ap.Item { return ap.NilIRI }}}
+		reals := []func() ap.Item{func() ap.Item { return ap.IRI("https://example.com/a") }, func() ap.Item { return &ap.Object{ID: "https://example.com/o", Type: ap.NoteType} },
+			func() ap.Item { return &ap.Object{Name: ap.DefaultNaturalLanguageValue("anonymous")} }}
+		n := 0
+		for _, nl := range nils {
+			for pos := 0; pos < 3; pos++ {
+				for ri := range reals {
+					mkList := func() ap.ItemCollection {
+						l := ap.ItemCollection{reals[ri](), reals[(ri+1)%len(reals)]()}
+						out := append(ap.ItemCollection{}, l[:pos%3%(len(l)+1)]...)
+						out = append(out, nl.mk())
+						return append(out, l[pos%3%(len(l)+1):]...)
+					}
+					holders := map[string]ap.Item{
+						"bare-list":          mkList(),
+						"Object.Tag":         &ap.Object{ID: "https://example.com/x", Type: ap.NoteType, Tag: mkList()},
+						"Activity.To":        &ap.Activity{ID: "https://example.com/x", Type: ap.CreateType, To: mkList()},
+						"Object.Attachment":  &ap.Object{ID: "https://example.com/x", Type: ap.NoteType, Attachment: mkList()},
+						"OrderedItems":       &ap.OrderedCollection{ID: "https://example.com/x", Type: ap.OrderedCollectionType, OrderedItems: mkList()},
+						"only-the-nil-bare":  ap.ItemCollection{nl.mk()},
+						"only-the-nil-in-cc": &ap.Object{ID: "https://example.com/x", Type: ap.NoteType, CC: ap.ItemCollection{nl.mk()}},
+					}
+					for _, hn := range []string{"bare-list", "Object.Tag", "Activity.To", "Object.Attachment", "OrderedItems", "only-the-nil-bare", "only-the-nil-in-cc"} {
+						x := holders[hn]
+						cell := fmt.Sprintf("%s with %s at %d (real %d)", hn, nl.name, pos, ri)
+						if !r.WantCell(cell) {
+							continue
+						}
+						n++
+						r.Case(cell, true, "nil-members "+hn)
+						if res, key, detail := c09Equal(x, x); key != "" {
+							r.Report("nil-members", cell, key, detail, cell)
+						} else if !res {
+							r.Report("nil-members", cell, "eq refl list-with-nil-member "+hn, "ItemsEqual(x, x) is false for "+cell, cell)
+						}
+					}
+				}
+			}
+		}
+		r.Cells(n, n)
+		r.Exhaustive("nil-members", !r.Replaying())
+	}
+
 	// objects whose ids differ, or whose types differ, are never equal: every ordered pair of Go types, minimal and populated values
 	if r.WantLayer("cross-type", true) {
 		n := 0
